@@ -9,7 +9,11 @@ oracle/search : equal content by another route (lists / arrays / frame, int / fl
                 (each metadata value or type, label, material, property, adsorbate, temperature, cell above the threshold, branch
                 mark, model parameter) => different id; a change below the rounding threshold => equal id; live-object histories:
                 identifier read, content edited through a held reference (data_raw cell / branch mark / column, properties[k],
-                material.properties[k], model.params[k], model.rmse), identifier read again => changed and equal to a fresh object's
+                material.properties[k], model.params[k], model.rmse), identifier read again => changed and equal to a fresh object's;
+                routes THROUGH an existing object, half of them in the non-default temperature unit: parse of its JSON export,
+                constructor(**to_dict()), from_isotherm(template), convert_temperature / temperature setter vs a fresh object with
+                the content the edited object reports => equal id; every pair also ties the model's to_dict to the dictionary
+                the implementation's to_dict() returns (compared in Coq)
 """
 import copy
 import json
@@ -34,7 +38,12 @@ MANIFEST = dict(
          "implementation's == on generated pairs (same content by other routes, minimal content changes, sub-threshold changes), and checks "
          "identifiers across a process boundary with another PYTHONHASHSEED, across read-only calls, and along live-object histories (identifier "
          "read, one content item changed through an object the isotherm holds - table cell, branch mark, metadata / material property dict, model "
-         "parameter - identifier read again: it must change and equal the identifier of a fresh isotherm with the edited content).",
+         "parameter - identifier read again: it must change and equal the identifier of a fresh isotherm with the edited content). Round 3: the "
+         "model's to_dict is PROVED to be the interpretation of BaseIsotherm.to_dict translated statement by statement from the current source "
+         "(the temperature is exported as stored, in the isotherm's own unit; reading it through anything else breaks the proof), and compared "
+         "per run with the dictionary to_dict() returns; every read-only query of the three classes (generated table of the names each method "
+         "binds on the object) binds only names to_dict discards; pairs (isotherm, isotherm obtained from it by export+parse / to_dict+constructor "
+         "/ from_isotherm / in-place temperature conversion or assignment vs fresh object), half of them stored in degC, must have equal identifiers.",
     note="Trusted: Coq kernel; oracles md5, hash_pandas_object (one hash per row from label and dtype-tagged cells), str(int), json.dumps(sort_keys); "
          "numpy round(8) modelled as exact half-even rounding (generator stays away from ties); tools/py2v_tables.py; the abstraction function "
          "of the harness.",
@@ -52,6 +61,13 @@ def coq_route(o):
 
 
 def read_only_calls(iso, rnd):
+    import warnings
+    with warnings.catch_warnings():
+        warnings.simplefilter('ignore')      # numpy RuntimeWarnings of the queried formulas are not our business
+        return _read_only_calls(iso, rnd)
+
+
+def _read_only_calls(iso, rnd):
     import pygaps
     point = isinstance(iso, pygaps.PointIsotherm)
     for _ in range(12):
@@ -67,6 +83,8 @@ def read_only_calls(iso, rnd):
             else: iso.spreading_pressure_at([float(np.mean(iso.pressure()))])
         except Exception:  # noqa
             pass
+    # every public query discovered on the class (drawn optional arguments); numerical inversion on models excluded (slow)
+    return cc.run_queries(iso, rnd, n=6, slow_ok=False)
 
 
 def mutate(spec, rnd):
@@ -206,6 +224,85 @@ def reroute(spec, rnd):
     return s, 'numpy-arrays'
 
 
+# ------------------------------------------------------------------ the same content by a route THROUGH an existing object
+OBJECT_ROUTES = ['json-parse', 'to_dict-constructor', 'from_isotherm', 'convert_temperature-vs-fresh', 'set_temperature-vs-fresh']
+
+
+def apply_route(spec, route):
+    """-> (A, B): two isotherms that must have the same identifier.
+    json-parse / to_dict-constructor / from_isotherm: A built from the spec, B obtained from A's export / dictionary / A as template;
+    convert_temperature-vs-fresh: A built from the spec and converted in place to the other temperature unit, B built directly with
+    the temperature value and unit A reports afterwards (edited object vs fresh object of the same content);
+    set_temperature-vs-fresh: the same with the temperature assigned through the public setter"""
+    import pygaps
+    from pygaps.core.baseisotherm import BaseIsotherm
+    a = cc.build(spec)
+    if route == 'json-parse':
+        from pygaps.parsing.json import isotherm_from_json
+        kw = dict(pressure_key=a.pressure_key, loading_key=a.loading_key) if spec['cls'] == 'point' else {}
+        return a, isotherm_from_json(a.to_json(), **kw)
+    if route == 'to_dict-constructor':
+        if spec['cls'] == 'base':
+            return a, BaseIsotherm(**a.to_dict())
+        if spec['cls'] == 'model':
+            return a, pygaps.ModelIsotherm(model=a.model, **a.to_dict())
+        return a, pygaps.PointIsotherm(isotherm_data=a.data_raw.copy(), pressure_key=a.pressure_key, loading_key=a.loading_key, **a.to_dict())
+    if route == 'from_isotherm':
+        if spec['cls'] != 'point':
+            return None
+        return a, pygaps.PointIsotherm.from_isotherm(a, isotherm_data=a.data_raw.copy(), pressure_key=a.pressure_key, loading_key=a.loading_key)
+    if route == 'convert_temperature-vs-fresh':
+        a.convert_temperature('K' if a.temperature_unit != 'K' else '°C')
+        s2 = copy.deepcopy(spec)
+        s2['units']['temperature_unit'] = a.temperature_unit
+        s2['temperature'] = a._temperature
+        return a, cc.build(s2)
+    if route == 'set_temperature-vs-fresh':
+        a.temperature = a._temperature + 12.5        # the public setter stores the number as given, in the isotherm's own unit
+        s2 = copy.deepcopy(spec)
+        s2['temperature'] = a._temperature
+        return a, cc.build(s2)
+    raise ValueError(route)
+
+
+def classify_route(route, oa, ob, diff):
+    """tag from the failing input pattern: which content item / which route item of the two objects differs"""
+    if diff is not None:
+        if diff[0] == 'branch' and oa['cls'] == 'point' and not any(b for _, b in oa['rows']):
+            from props import c06
+            if c06.guess_would_differ(oa):
+                return 'C05:parse-of-export:all-adsorption-marks-reguessed'
+        return 'C05:unclassified:object-route:%s:content:%s' % (route, diff[0])
+    if oa['cls'] == 'point':
+        if dclass(oa['dtypes'].get('branch')) != dclass(ob['dtypes'].get('branch')):
+            return 'C05:id-depends-on-branch-column-dtype'
+        pl = [c for c in oa['dtypes'] if dclass(oa['dtypes'][c]) != dclass(ob['dtypes'].get(c))]
+        if pl:
+            return 'C05:unclassified:object-route:%s:column-dtype:%s->%s' % (route, dclass(oa['dtypes'][pl[0]]), dclass(ob['dtypes'].get(pl[0])))
+        if oa['index'] != ob['index']:
+            return 'C05:id-depends-on-row-labels'
+        if oa['columns'] != ob['columns'] and sorted(oa['columns']) == sorted(ob['columns']):
+            return 'C05:id-depends-on-column-order'
+    return 'C05:unclassified:object-route:%s:equal-content' % route
+
+
+def gen_route_cases(tier, seed):
+    rnd = random.Random(seed * 104729 + 3)
+    n = 1500 if tier == 'thorough' else 150
+    out = []
+    for k in range(n):
+        spec = cc.gen_spec(rnd, 'json', cls=rnd.choice(['base', 'point', 'point', 'model']))
+        if spec['cls'] == 'point':
+            spec['data']['via'] = 'frame'
+        if k % 2 == 0:
+            spec['units']['temperature_unit'] = '°C'      # half of the cases in the non-default temperature unit
+        route = rnd.choice(OBJECT_ROUTES)
+        if route == 'from_isotherm' and spec['cls'] != 'point':
+            route = 'to_dict-constructor'
+        out.append((spec, route))
+    return out
+
+
 def gen_pairs(tier, seed):
     rnd = random.Random(seed)
     n = 3000 if tier == 'thorough' else 260
@@ -245,7 +342,9 @@ def other_process_ids(specs):
     os.makedirs(SCR, exist_ok=True)
     path = os.path.join(SCR, 'c05_specs_%d.json' % os.getpid())
     json.dump(specs, open(path, 'w'))
-    env = dict(os.environ, PYTHONHASHSEED='4242', PYTHONPATH='/repo/src:' + vlib.TOOLS)
+    import pygaps
+    src = os.path.dirname(os.path.dirname(os.path.abspath(pygaps.__file__)))      # the tree this run judges
+    env = dict(os.environ, PYTHONHASHSEED='4242', PYTHONPATH=src + ':' + vlib.TOOLS)
     try:
         p = subprocess.run([sys.executable, '-c', CHILD % vlib.TOOLS, path], capture_output=True, text=True, env=env, timeout=300)
         if p.returncode != 0:
@@ -480,15 +579,35 @@ def explore(rep, tier, seed):
         except Exception:  # noqa  generator produced something a constructor refuses
             continue
         oa, ob = cc.observe(a), cc.observe(b)
-        cases.append(dict(sa=sa, sb=sb, what=what, expect_same=same, kind=kind, oa=oa, ob=ob, eq=bool(a == b), ida=a.iso_id, idb=b.iso_id))
+        cases.append(dict(sa=sa, sb=sb, what=what, expect_same=same, kind=kind, oa=oa, ob=ob, eq=bool(a == b), ida=a.iso_id, idb=b.iso_id,
+                          tda=a.to_dict(), tdb=b.to_dict()))
         # identifiers across read-only calls / cache filling
         if sa['cls'] != 'base':
             before = a.iso_id
-            read_only_calls(a, rnd)
+            keys_before = sorted(a.to_dict())
+            ro_seed = 'c05-ro/%d/%d' % (seed, len(cases))
+            qs = read_only_calls(a, random.Random(ro_seed))
             if a.iso_id != before:
-                rep.failure('C05:unclassified:id-changed-by-read-only-calls', 'identifier changed after read-only calls', {'spec': _js(sa), 'kind': 'read-only'})
-    # ---- correspondence in Coq: model's "same md5 input" vs implementation's ==
-    terms = ['(same_prehash %s %s %s %s)' % (coq_route(c['oa']), cc.coq_iso(c['oa']), coq_route(c['ob']), cc.coq_iso(c['ob'])) for c in cases]
+                rep.failure('C05:unclassified:id-changed-by-read-only-calls',
+                            'identifier %s became %s after read-only calls (the last: %s); to_dict() keys gained: %s' % (
+                                before, a.iso_id, qs, [k for k in sorted(a.to_dict()) if k not in keys_before]),
+                            {'specA': _js(sa), 'kind': 'read-only', 'ro_seed': ro_seed})
+    # ---- the same content by a route through an existing object (export + parse, to_dict + constructor, template, in-place conversion)
+    n_route_refused = 0
+    for spec, route in gen_route_cases(tier, seed):
+        try:
+            ab = apply_route(spec, route)
+        except Exception:  # noqa  (constructor / parser refuses: judged by C06 / C07, not an identifier case)
+            n_route_refused += 1
+            continue
+        if ab is None:
+            continue
+        a, b = ab
+        cases.append(dict(sa=spec, sb=None, route=route, what=route, expect_same=True, kind='object-route', oa=cc.observe(a), ob=cc.observe(b),
+                          eq=bool(a == b), ida=a.iso_id, idb=b.iso_id, tda=a.to_dict(), tdb=b.to_dict()))
+    # ---- correspondence in Coq: model's "same md5 input" vs implementation's ==, model's to_dict vs implementation's to_dict()
+    terms = ['(chk_pair %s %s %s %s %s %s)' % (coq_route(c['oa']), cc.coq_iso(c['oa']), cc.cdict(c['tda']),
+                                               coq_route(c['ob']), cc.coq_iso(c['ob']), cc.cdict(c['tdb'])) for c in cases]
     model = None
     try:
         model = vlib.run_coq_cases('c05m', cc.HEADER + 'From PG Require Import Codec.JsonRoundtrip Ident.Prehash Ident.PrehashShow.\n',
@@ -496,6 +615,7 @@ def explore(rep, tier, seed):
     except RuntimeError as e:
         rep.broken_obligation('correspondence:Prehash-evaluation', str(e)[-800:])
     n_dis = 0
+    n_td = 0
     if model is not None:
         for c, mz in zip(cases, model):
             pred = (mz[0] == 1 and mz[1] == 1)
@@ -503,15 +623,37 @@ def explore(rep, tier, seed):
                 n_dis += 1
                 if n_dis <= 5:
                     rep.broken_obligation('correspondence:Prehash-vs-implementation',
-                                          {'model_same_md5_input': pred, 'model_parts(to_dict,data)': mz, 'implementation_eq': c['eq'], 'what': c['what'],
-                                           'dtypes': (c['oa'].get('dtypes'), c['ob'].get('dtypes')), 'specA': _js(c['sa']), 'specB': _js(c['sb'])})
+                                          {'model_same_md5_input': pred, 'model_parts(to_dict,data)': mz[:2], 'implementation_eq': c['eq'], 'what': c['what'],
+                                           'dtypes': (c['oa'].get('dtypes'), c['ob'].get('dtypes')), 'specA': _js(c['sa']), 'specB': _js(c['sb']) if c['sb'] else c.get('route')})
+            for side, ok in (('A', mz[2]), ('B', mz[3])):
+                if ok != 1:
+                    n_td += 1
+                    if n_td <= 3:
+                        o, td = (c['oa'], c['tda']) if side == 'A' else (c['ob'], c['tdb'])
+                        rep.broken_obligation('correspondence:to_dict-vs-implementation',
+                                              {'what': "the model's to_dict of the abstracted object is not the dictionary to_dict() returned", 'object': side,
+                                               'case': c['what'], 'implementation_to_dict': str(td)[:600],
+                                               'object_state': {'units': o['units'], 'temperature(stored)': o['temperature'], 'material': o['material'],
+                                                                'adsorbate': o['adsorbate'], 'metadata_keys': sorted(o['meta'])},
+                                               'specA': _js(c['sa'])})
     # ---- property oracle
     hist = {}
     nontrivial = set()
     for c in cases:
         key = '%s/%s' % (c['kind'], c['what'])
         hist[key] = hist.get(key, 0) + 1
-        if c['expect_same'] and not c['eq']:
+        if c['kind'] == 'object-route':
+            if not c['eq'] or c['ida'] != c['idb']:
+                from props import c06
+                d = c06.content_diff(c['oa'], c['ob'])
+                rep.failure(classify_route(c['route'], c['oa'], c['ob'], d),
+                            'an isotherm and the isotherm obtained from it by %s have different identifiers %s / %s%s' % (
+                                c['route'], c['ida'], c['idb'], '; first difference of their observable content: %s' % (d,) if d else
+                                '; their observable content is equal (dtypes %s / %s)' % (c['oa'].get('dtypes'), c['ob'].get('dtypes'))),
+                            {'specA': _js(c['sa']), 'kind': 'object-route', 'route': c['route'], 'expect_same': True})
+            else:
+                nontrivial.add((c['kind'], c['what'], c['sa']['cls'], len(c['oa'].get('rows', [])), tuple(sorted(c['oa']['meta'])), c['oa']['units'][-1]))
+        elif c['expect_same'] and not c['eq']:
             rep.failure(classify(c['kind'], c['what'], c['oa'], c['ob']),
                         'same content (%s) but different identifiers %s / %s' % (c['what'], c['ida'], c['idb']),
                         {'specA': _js(c['sa']), 'specB': _js(c['sb']), 'kind': c['kind'], 'what': c['what'], 'expect_same': True})
@@ -544,9 +686,13 @@ def explore(rep, tier, seed):
                        'another PYTHONHASHSEED and after 12 random read-only calls; (iv) live-object histories: identifier read (iso_id / == / in / repr), '
                        'one content item changed through a reference the isotherm HOLDS {cell, extra-column cell, branch mark, rescaled column of data_raw; '
                        'properties[k] set / added / deleted; material.properties; model.params[k], model.rmse, model.pressure_range}, identifier read '
-                       'again: must change and must equal the identifier of a fresh isotherm built with the edited content')
+                       'again: must change and must equal the identifier of a fresh isotherm built with the edited content; (v) object routes '
+                       '{parse of the JSON export, constructor(**to_dict()), from_isotherm(template), convert_temperature vs fresh, temperature setter '
+                       'vs fresh} x {K, degC}: equal identifier demanded; read-only calls = 12 fixed-shape calls + 6 queries discovered on the class')
     rep.cov['input_distribution'] = dict(sorted(hist.items()))
-    rep.cov['correspondence'] = {'pairs': len(cases), 'disagreements': n_dis, 'what': "model's 'same md5 input' (computed in Coq) vs implementation =="}
+    rep.cov['correspondence'] = {'pairs': len(cases), 'disagreements': n_dis, 'to_dict_disagreements': n_td, 'object_route_refused': n_route_refused,
+                                 'what': "model's 'same md5 input' (computed in Coq) vs implementation ==; model's to_dict of each abstracted object vs "
+                                         "the dictionary the implementation's to_dict() returns (typed, compared in Coq)"}
     rep.cov['samples'] += [{'what': c['what'], 'kind': c['kind'], 'eq': c['eq'], 'expected_same': c['expect_same']} for c in cases[:6]]
     rep.cov['trusted_base'] += ['translator tools/py2v_tables.py', 'oracles: md5, hash_pandas_object (collision-free on the inputs compared), json.dumps(sort_keys)',
                                 'numpy round(8) = exact half-even rounding away from ties', 'abstraction function tools/props/codec_common.py']
@@ -586,6 +732,21 @@ def replay(d):
         fresh = cc.build(e[1])
         print('identifier read:', id0, '| edit through a held reference:', e[0], '| identifier read again:', id1, '(unchanged!)' if id0 == id1 else '')
         print('fresh isotherm with the edited content:', fresh.iso_id, ' fresh == edited:', fresh == a)
+        return 1
+    if r.get('kind') == 'read-only':
+        a = cc.build(_unjs(r.get('specA') or r.get('spec')))
+        id0, k0 = a.iso_id, sorted(a.to_dict())
+        qs = read_only_calls(a, random.Random(r.get('ro_seed', 0)))
+        print('identifier before:', id0, '| read-only calls (the last ones):', qs)
+        print('identifier after :', a.iso_id, '(changed!)' if a.iso_id != id0 else '', '| to_dict() keys gained:', [k for k in sorted(a.to_dict()) if k not in k0])
+        return 1
+    if r.get('kind') == 'object-route':
+        from props import c06
+        a, b = apply_route(_unjs(r['specA']), r['route'])
+        print('route:', r['route'])
+        print('A:', a.iso_id, 'temperature', a._temperature, a.temperature_unit, cc.observe(a).get('dtypes'))
+        print('B:', b.iso_id, 'temperature', b._temperature, b.temperature_unit, cc.observe(b).get('dtypes'))
+        print('A == B:', a == b, ' first content difference:', c06.content_diff(cc.observe(a), cc.observe(b)))
         return 1
     a = cc.build(_unjs(r['specA']))
     print('A:', a.iso_id, cc.observe(a).get('dtypes'), cc.observe(a).get('index', [])[:3])
